@@ -127,9 +127,16 @@ def start_values(ctx):
     f = m.method(roles.MODULE, '_add_accessible', inherited=False)
     ctx.analysed(f)
     cfg = CFG(f.node, m, f.module)
-    sets = [c for c in calls_in(f.node) if call_attr(c) == 'setProperty']
-    if not sets:
+    from sa.lib import deep_calls
+    deep = deep_calls(m, f, lambda c: call_attr(c) == 'setProperty')
+    if not deep:
         raise AnchorMissing('setProperty call not found in _add_accessible')
+    owner = deep[0][1]
+    if owner is not f:
+        ctx.analysed(owner)
+        f = owner          # the configuration block was extracted into a helper: analyse it there
+        cfg = CFG(f.node, m, f.module)
+    sets = [c for c, o, site in deep if o is f]
     chk = [n for n in body_walk(f.node) if isinstance(n, ast.If) and "'value'" in src(n.test) and "'default'" in src(n.test) and "'constant'" in src(n.test)]
     ok = bool(chk) and any(isinstance(c.func, ast.Attribute) and c.func.attr == 'datatype' for c in calls_in(chk[0]))
     ctx.check(ok, f'{f.qualname}:configured values checked against the datatype', f.node, 'accessible.datatype(cfg[propname]) for value/default/constant',
@@ -178,6 +185,13 @@ def consistency_checks(ctx):
     ctx.analysed(cp)
     mand = [n for n in body_walk(cp.node) if isinstance(n, ast.If) and src(n.test).endswith('.mandatory')]
     ok = bool(mand) and any('ConfigError' in src(x) for n in mand for x in ast.walk(n) if isinstance(x, ast.Raise))
+    if not ok and mand:
+        # early-continue form: `if not po.mandatory: continue` followed by the check in the same loop
+        for n in mand:
+            loop = next((a for a in ancestors(n) if isinstance(a, ast.For)), None)
+            if loop is not None and src(n.test).startswith('not ') and any(isinstance(x, ast.Continue) for x in n.body) and \
+                    any(isinstance(x, ast.Raise) and 'ConfigError' in src(x) for x in ast.walk(loop)):
+                ok = True
     ctx.check(ok, f'{cp.qualname}:mandatory rule', cp.node, 'a missing mandatory property raises ConfigError', 'the mandatory rule is missing', cp)
     order = False
     for n in body_walk(cp.node):
